@@ -171,6 +171,161 @@ pub fn child_e2e19(k: usize, kinds: &str, npeers: usize) -> ! {
     std::process::exit(0)
 }
 
+/// Child process body of `C08 accept`: the real `Session::run` with its listener. The tracker lists twelve peers: the first
+/// is an address nobody listens on (it stays queued as a candidate, the other eleven fill the connection slots: they accept
+/// and keep the connection open without a word). Two connections are then made *to* the client: one from an unrelated
+/// port, one from the queued candidate's own address. On each: how many bytes arrive before anything was sent (there must
+/// be none), and what the client answers to a handshake (a foreign info-hash on the first, a valid one on the second).
+pub fn child_acc08() -> ! {
+    use std::sync::atomic::{AtomicUsize, Ordering};
+    use std::sync::Arc;
+    let lock_path = std::env::var("VERIF_PORT_LOCK").unwrap_or_else(|_| "port6881.lock".into());
+    let lock = std::fs::OpenOptions::new().create(true).write(true).open(&lock_path).expect("lock file");
+    lock.lock().expect("flock");
+    let tl = std::net::TcpListener::bind("127.0.0.1:0").expect("bind tracker");
+    let tport = tl.local_addr().unwrap().port();
+    // the candidate's address: a port that is free now and that we connect *from* later
+    let cand_port = {
+        let l = std::net::TcpListener::bind("127.0.0.1:0").unwrap();
+        l.local_addr().unwrap().port()
+    };
+    let fakes: Vec<std::net::TcpListener> = (0..11).map(|_| std::net::TcpListener::bind("127.0.0.1:0").unwrap()).collect();
+    let mut ports: Vec<u16> = vec![cand_port];
+    ports.extend(fakes.iter().map(|l| l.local_addr().unwrap().port()));
+    let url = format!("http://127.0.0.1:{}/announce", tport);
+    let doc = format!(
+        "d8:announce{}:{}4:infod6:lengthi16e4:name1:N12:piece lengthi16e6:pieces20:AAAAABBBBBCCCCCDDDDDee",
+        url.len(),
+        url
+    );
+    let m = Metainfo::from_bencode(doc.as_bytes()).expect("metainfo");
+    let info_hash = *m.info_hash();
+    let good_sent = Arc::new(AtomicUsize::new(0));
+    let (good2, ports2) = (good_sent.clone(), ports.clone());
+    std::thread::spawn(move || {
+        if serve_one(&tl, "200 OK", &tracker_reply(&ports2)).is_some() {
+            good2.store(1, Ordering::SeqCst);
+        }
+    });
+    // the eleven listed peers that are there: accept, read the client's handshake, say nothing, keep the connection
+    let held = Arc::new(std::sync::Mutex::new(Vec::<std::net::TcpStream>::new()));
+    let contacted = Arc::new(AtomicUsize::new(0));
+    for (j, l) in fakes.into_iter().enumerate() {
+        let (held, contacted) = (held.clone(), contacted.clone());
+        std::thread::spawn(move || {
+            if let Ok((mut s, _)) = l.accept() {
+                let mut buf = [0u8; 68];
+                let _ = s.set_read_timeout(Some(std::time::Duration::from_secs(5)));
+                if s.read_exact(&mut buf).is_ok() {
+                    // answer as the listed peer (its id as in `tracker_reply`) and offer the only piece: the client is
+                    // interested in us, so we do not count against its limit of uninteresting connections
+                    let mut id = b"-FK0100-".to_vec();
+                    id.extend_from_slice(&[0xff, 0xfe, 0x80, 0x00, 0xc3, 0x28, 0xed, 0xa0, 0x80, 0x9f, 0x0a, (j + 1) as u8]);
+                    let mut ida = [0u8; 20];
+                    ida.copy_from_slice(&id);
+                    let mut reply = handshake(&info_hash, &ida);
+                    reply.extend_from_slice(&[0, 0, 0, 2, 5, 0x80]);
+                    if s.write_all(&reply).is_ok() {
+                        contacted.fetch_add(1, Ordering::SeqCst);
+                    }
+                }
+                held.lock().unwrap().push(s);
+            }
+        });
+    }
+    std::thread::spawn(move || {
+        let rt = tokio::runtime::Builder::new_multi_thread().worker_threads(2).enable_all().build().unwrap();
+        rt.block_on(async move {
+            let mut session = rdest::Session::new(m, *b"-VERIF-0000000000001");
+            session.run().await;
+        });
+    });
+    let t0 = std::time::Instant::now();
+    while (good_sent.load(Ordering::SeqCst) == 0 || contacted.load(Ordering::SeqCst) < 11) && t0.elapsed().as_secs() < 15 {
+        std::thread::sleep(std::time::Duration::from_millis(10));
+    }
+    // one connection to the client: bytes before we say anything, then bytes after our handshake
+    let probe = |from: Option<u16>, hs: Vec<u8>| -> String {
+        let rt = tokio::runtime::Builder::new_current_thread().enable_all().build().unwrap();
+        rt.block_on(async move {
+            use tokio::io::{AsyncReadExt, AsyncWriteExt};
+            let sock = tokio::net::TcpSocket::new_v4().unwrap();
+            let _ = sock.set_reuseaddr(true);
+            if let Some(p) = from {
+                if sock.bind(format!("127.0.0.1:{}", p).parse().unwrap()).is_err() {
+                    return "nobind".to_string();
+                }
+            }
+            let mut s = match tokio::time::timeout(std::time::Duration::from_secs(3), sock.connect("127.0.0.1:6881".parse().unwrap())).await {
+                Ok(Ok(s)) => s,
+                _ => return "noconnect".to_string(),
+            };
+            let mut buf = vec![0u8; 4096];
+            let pre = match tokio::time::timeout(std::time::Duration::from_millis(700), s.read(&mut buf)).await {
+                Ok(Ok(n)) => n as i64,
+                Ok(Err(_)) => -1,
+                Err(_) => 0,
+            };
+            if s.write_all(&hs).await.is_err() {
+                return format!("pre{}-nowrite", pre);
+            }
+            let mut got: Vec<u8> = vec![];
+            loop {
+                match tokio::time::timeout(std::time::Duration::from_millis(900), s.read(&mut buf)).await {
+                    Ok(Ok(0)) => break,
+                    Ok(Ok(n)) => got.extend_from_slice(&buf[..n]),
+                    _ => break,
+                }
+                if got.len() >= 68 + 6 {
+                    break;
+                }
+            }
+            format!("pre{}-post{}", pre, hex(&got[..got.len().min(68)]))
+        })
+    };
+    let mut foreign = info_hash;
+    foreign[0] ^= 0xff;
+    let plain = probe(None, handshake(&foreign, b"-PROBE-0000000000001"));
+    let cand = probe(Some(cand_port), handshake(&info_hash, b"-PROBE-0000000000002"));
+    eprintln!(
+        "E2E good={} contacted={} hash={} plain={} cand={}",
+        good_sent.load(Ordering::SeqCst),
+        contacted.load(Ordering::SeqCst),
+        hex(&info_hash),
+        plain,
+        cand
+    );
+    std::process::exit(0)
+}
+
+/// `accept`: spawn the child above and report its `E2E` line.
+fn op_accept() -> String {
+    let exe = std::env::current_exe().expect("exe");
+    static COUNTER: std::sync::atomic::AtomicUsize = std::sync::atomic::AtomicUsize::new(0);
+    let n = COUNTER.fetch_add(1, std::sync::atomic::Ordering::SeqCst);
+    let dir = std::env::current_dir().unwrap().join(format!("acc08_{}_{}", std::process::id(), n));
+    std::fs::create_dir_all(&dir).unwrap();
+    let lock = std::env::var("VERIF_PORT_LOCK").unwrap_or_else(|_| "/verif/.scratch/port6881.lock".into());
+    let out = std::process::Command::new(exe)
+        .args(["child-acc08"])
+        .current_dir(&dir)
+        .env("VERIF_PORT_LOCK", lock)
+        .stdout(std::process::Stdio::null())
+        .stderr(std::process::Stdio::piped())
+        .output();
+    let _ = std::fs::remove_dir_all(&dir);
+    match out {
+        Ok(o) => {
+            let err = String::from_utf8_lossy(&o.stderr).to_string();
+            match err.lines().find(|l| l.starts_with("E2E ")) {
+                Some(l) => l[4..].to_string(),
+                None => format!("child-failed {}", err.lines().last().unwrap_or("").replace(' ', "_")),
+            }
+        }
+        Err(_) => "spawn-failed".into(),
+    }
+}
+
 /// `e2e <k> <kinds> <npeers>`: spawn the child and report its `E2E` line.
 fn op_e2e(k: &str, kinds: &str, npeers: &str) -> String {
     let exe = std::env::current_exe().expect("exe");
@@ -203,6 +358,7 @@ pub fn run19(args: &[&str]) -> String {
     match args[0] {
         "resp" => op_resp(&unhex(args[1])),
         "e2e" => op_e2e(args[1], args[2], args[3]),
+        "accept" => op_accept(),
         "fetch" => op_fetch(args[1].parse().unwrap(), &unhex(args[2])),
         "respawn" => op_respawn(args[1].parse().unwrap(), args[2].parse().unwrap()),
         _ => panic!("unknown C19 op"),
